@@ -1,4 +1,4 @@
-import QuinnModel.Lemmas.StreamsC05Ops
+import QuinnModel.Lemmas.StreamsEarly
 /-
 C05: reachable states, the main invariant theorem and the per-operation facts.
 -/
@@ -13,11 +13,22 @@ def Allowed (s : State) : Op → Prop
   | .params p => ParamsOk s p
   | _ => True
 
-/-- states reachable from `StreamsState::new(c)` with their history (newest first) -/
+/-- a history that consists of early operations only: nothing from the peer has been processed yet -/
+def EarlyHist (side : Side) (h : Hist) : Prop := ∀ e ∈ h, EarlyOp side e.1
+
+instance (side : Side) (h : Hist) : Decidable (EarlyHist side h) := by unfold EarlyHist; exact inferInstance
+
+/-- states reachable from `StreamsState::new(c)` with their history (newest first).
+    `rejected`: the 0-RTT rejection as `Connection` performs it when the handshake completes — after a
+    history of early operations only, `zero_rtt_rejected`, the queued frames are dropped, and
+    `set_params p` with the newly negotiated parameters `p` (any values, in particular smaller ones) -/
 inductive Reach (c : Config) : Hist → State → Prop
   | init {s0 : State} : State.new c = some s0 → Reach c [] s0
   | step {h : Hist} {s s' : State} {o : Op} {out : Out} :
       Reach c h s → Allowed s o → step s o = some (s', out) → Reach c ((o, out) :: h) s'
+  | rejected {h : Hist} {s s1 : State} {p : Params} :
+      Reach c h s → EarlyHist c.side h → s.zeroRttRejected = some s1 →
+      Reach c ((.params p, .ok) :: (.rejected, .ok) :: h) (({ s1 with rtx := {} } : State).setParams p)
 
 theorem new_vw {c : Config} {s0 : State} (h : State.new c = some s0) :
     s0.vw = ⟨⟨c.side, 0, 0, ⟨0, 0⟩, ⟨0, 0⟩, 0, 0, 0⟩, fun _ => none⟩ := by
@@ -34,6 +45,68 @@ theorem inv_new {c : Config} {s0 : State} (h : State.new c = some s0) : InvV c.s
   · intro id c hc; simp at hc
   · intro id; simp only [Core.maxSendData, peerStreamLimit]; split <;> (try split) <;> exact Nat.le_refl _
 
+theorem insertRemoteRange_keys (sd : Side) : ∀ (n : Nat) (s s' : State) (d : Dir) (st i : Nat),
+    s.insertRemoteRange d st n i = some s' → s.side = sd →
+    (∀ k, s.send.find? k ≠ none → sidInitiator k ≠ sd ∧ s.send.find? k = some none) →
+    (∀ k, s'.send.find? k ≠ none → sidInitiator k ≠ sd ∧ s'.send.find? k = some none) ∧ s'.side = sd := by
+  intro n
+  induction n with
+  | zero => intro s s' d st i hh hsd hs; simp [State.insertRemoteRange] at hh; subst hh; exact ⟨hs, hsd⟩
+  | succ n ih =>
+    intro s s' d st i hh hsd hs
+    unfold State.insertRemoteRange at hh
+    split at hh
+    · contradiction
+    · rename_i s1 h1
+      have hm := insert_only_maps h1
+      have hside1 : s1.side = sd := by rw [hm]; exact hsd
+      have hs1 : ∀ k, s1.send.find? k ≠ none → sidInitiator k ≠ sd ∧ s1.send.find? k = some none := by
+        intro k hk
+        unfold State.insert at h1
+        osplit h1
+        rw [← h1] at hk ⊢
+        simp only at hk ⊢
+        have hmi := ‹mapInsertIf _ s.send _ = some _›
+        unfold mapInsertIf at hmi
+        split at hmi
+        · rw [Map.find?_insertNew _ _ _ _ _ hmi] at hk ⊢
+          split
+          · rename_i hkk
+            refine ⟨?_, rfl⟩
+            rw [← hkk, sidInitiator_sidNew, hsd]
+            cases sd <;> simp [Side.not]
+          · rename_i hkk
+            simp only [hkk, ↓reduceIte] at hk
+            exact hs k hk
+        · simp only [Option.some.injEq] at hmi; subst hmi; exact hs k hk
+      exact ih s1 s' d st (i + 1) hh hside1 hs1
+
+theorem early_new {c : Config} {s0 : State} (h : State.new c = some s0) : EarlyInv s0 ∧ s0.side = c.side := by
+  unfold State.new at h
+  osplit h
+  have hb := ‹State.insertRemoteRange _ Dir.bi _ _ _ = some _›
+  obtain ⟨k1, e1⟩ := insertRemoteRange_keys c.side _ _ _ _ _ _ hb rfl (by intro k hk; simp at hk)
+  obtain ⟨k2, e2⟩ := insertRemoteRange_keys c.side _ _ _ _ _ _ h e1 k1
+  refine ⟨?_, e2⟩
+  intro id hne
+  right
+  rw [e2]; exact k2 id hne
+
+/-- in a history of early operations every key of the send map is a stream this endpoint opened or
+    an untouched peer stream -/
+theorem early_inv {c : Config} {h : Hist} {s : State} (r : Reach c h s) (he : EarlyHist c.side h) :
+    EarlyInv s ∧ s.side = c.side := by
+  induction r with
+  | init h0 => exact early_new h0
+  | step r ha hs ih =>
+    rename_i h s s' o out
+    have ⟨i, hside⟩ := ih (fun e hm => he e (List.mem_cons_of_mem _ hm))
+    have ho : EarlyOp s.side o := by rw [hside]; exact he (o, out) (List.mem_cons_self ..)
+    obtain ⟨i', hs'⟩ := early_step hs i ho
+    exact ⟨i', hs'.trans hside⟩
+  | rejected r _ _ _ =>
+    exact absurd (he (.rejected, .ok) (List.mem_cons_of_mem _ (List.mem_cons_self ..))) (by simp [EarlyOp])
+
 /-- **the C05 invariant holds in every reachable state** -/
 theorem reach_inv {c : Config} {h : Hist} {s : State} (r : Reach c h s) : InvV c.side h s.vw := by
   induction r with
@@ -42,6 +115,7 @@ theorem reach_inv {c : Config} {h : Hist} {s : State} (r : Reach c h s) : InvV c
     rename_i h s s' o out
     by_cases hg : o.isCredit = true
     · cases o <;> simp [Op.isCredit, Op.isGhost] at hg
+      case rejected => exact ha.elim
       case params p =>
         have : s' = s.setParams p := by unstep hs; exact hs.1.symm
         rw [this]; exact inv_params out ih ha
@@ -58,6 +132,17 @@ theorem reach_inv {c : Config} {h : Hist} {s : State} (r : Reach c h s) : InvV c
       have hgh : o.isGhost = false := by
         simp only [Op.isCredit, Bool.or_eq_false_iff] at hc; exact hc.1
       exact ih.frame (frame_step hs hc hr).v o out hgh
+  | rejected r he hz ih =>
+    rename_i h s s1 p
+    obtain ⟨i, hside⟩ := early_inv r he
+    rw [rejected_vw i hz p, hside]
+    refine ⟨rfl, ?_, ?_, rfl, Nat.zero_le _, fun d => by cases d <;> exact Nat.zero_le _, ?_, ?_⟩
+    · simp [peerMaxData, natMax_eq]
+    · intro d; cases d <;> simp [peerMaxStreams, Params.maxStreams, Two.get, natMax_eq]
+    · intro id c hc; simp at hc
+    · intro id
+      simp only [peerStreamLimit, natMax_eq, Nat.max_zero]
+      exact Nat.le_of_eq rfl
 
 /-- the first `set_params` of a connection is always admissible -/
 theorem paramsOk_new {c : Config} {s0 : State} (h : State.new c = some s0) (p : Params) : ParamsOk s0 p := by
@@ -69,5 +154,37 @@ theorem paramsOk_new {c : Config} {s0 : State} (h : State.new c = some s0) (p : 
   · intro id x hx _ _
     have : s0.cv id = none := congrFun (congrArg SView.cv hv) id
     simp [State.cv, hx] at this
+
+/-- the sender view of a fresh state after `set_params p` -/
+theorem fresh_vw {c : Config} {s0 : State} (h : State.new c = some s0) (p : Params) :
+    (s0.setParams p).vw =
+      ⟨⟨c.side, p.initialMaxData, 0, ⟨p.initialMaxStreamsBidi, p.initialMaxStreamsUni⟩, ⟨0, 0⟩,
+        p.initialMaxStreamDataUni, p.initialMaxStreamDataBidiLocal, p.initialMaxStreamDataBidiRemote⟩,
+       fun _ => none⟩ := by
+  have hv := new_vw h
+  have hcore := congrArg SView.core hv
+  simp only [State.vw, State.core, Core.mk.injEq] at hcore
+  simp only [State.vw, SView.mk.injEq]
+  constructor
+  · simp only [State.core, State.setParams, State.receivedMaxData, hcore.1, hcore.2.1, hcore.2.2.1,
+      hcore.2.2.2.2.1, natMax_eq, Nat.zero_max]
+  · funext k
+    simp only [State.cv, State.setParams, State.receivedMaxData]
+    split
+    · rename_i x' hx'
+      exfalso
+      obtain ⟨x, hx, _⟩ := setParamsLoop_find _ _ _ _ _ _ _ hx'
+      have := congrFun (congrArg SView.cv hv) k
+      simp [State.vw, State.cv, hx] at this
+    · rfl
+
+/-- **a rejected connection has the sender view of a fresh one**: after a history of early operations,
+    `zero_rtt_rejected` (+ dropping the queued frames) + `set_params p` give exactly the core
+    accounting and (empty) set of sending halves of `StreamsState::new` + `set_params p` -/
+theorem rejected_vw_fresh {c : Config} {h : Hist} {s s1 s0 : State} (r : Reach c h s)
+    (he : EarlyHist c.side h) (hz : s.zeroRttRejected = some s1) (h0 : State.new c = some s0) (p : Params) :
+    (({ s1 with rtx := {} } : State).setParams p).vw = (s0.setParams p).vw := by
+  obtain ⟨i, hside⟩ := early_inv r he
+  rw [rejected_vw i hz p, fresh_vw h0 p, hside]
 
 end QM.Streams
